@@ -26,6 +26,24 @@ func driveArray2D(plan []M, out *Out, _ []string) {
 		op := str(c, "op")
 		w, h, x1, y1, x2, y2, v := num(c, "w"), num(c, "h"), num(c, "x1"), num(c, "y1"), num(c, "x2"), num(c, "y2"), num(c, "v")
 		e := M{"op": op, "w": w, "h": h, "x1": x1, "y1": y1, "x2": x2, "y2": y2, "v": v, "lens": nz(ints(c, "lens")), "ret": 0}
+		// extreme coordinates: {"huge": {"y1": "minint"}} replaces the coordinate by a 64-bit extreme (the trace keeps +-2^30:
+		// TLC integers are 32-bit and all the validator needs is "outside the bounds, on which side")
+		if hg, ok := c["huge"].(M); ok {
+			for name, p := range map[string]*int{"x1": &x1, "y1": &y1, "x2": &x2, "y2": &y2} {
+				if kind := str(hg, name); kind != "" {
+					*p = hugeCoord(kind, a.Width())
+					switch {
+					case *p <= -(1 << 30):
+						e[name] = -(1 << 30)
+					case *p >= 1<<30:
+						e[name] = 1 << 30
+					default: // (k times the inverse of width k is 1)
+						e[name] = *p
+					}
+					e["huge_"+name] = kind
+				}
+			}
+		}
 		if op == "Reset" {
 			a, b, win, hasB = arrays.Array2D[int]{}, arrays.Array2D[int]{}, nil, false
 			out.Emit(e)
@@ -89,4 +107,56 @@ func driveArray2D(plan []M, out *Out, _ []string) {
 		e["x"] = e["grid"]
 		out.Emit(e)
 	}
+}
+
+// hugeCoord: coordinates far outside any array, chosen so that index arithmetic that wraps around lands inside again:
+// multiples of 2^k (times an even width = 0 mod 2^64) and multiples of the modular inverse of an odd width.
+func hugeCoord(kind string, width int) int {
+	const minInt = -1 << 63
+	switch kind {
+	case "minint":
+		return minInt
+	case "minint1":
+		return minInt + 1
+	case "maxint":
+		return 1<<63 - 1
+	case "maxint1":
+		return 1<<63 - 2
+	case "p62":
+		return 1 << 62
+	case "m62":
+		return -(1 << 62)
+	case "p61":
+		return 1 << 61
+	case "m61":
+		return -(1 << 61)
+	case "p60":
+		return 1 << 60
+	case "p32":
+		return 1 << 32
+	case "m32":
+		return -(1 << 32)
+	case "p31":
+		return 1 << 31
+	case "wrap": // smallest positive y with y*width = 0 mod 2^64 (even widths), else 2^63
+		tz := 0
+		for w := width; w > 0 && w%2 == 0; w /= 2 {
+			tz++
+		}
+		if tz == 0 || tz > 62 {
+			return minInt
+		}
+		return int(uint64(1) << uint(64-tz))
+	case "inv1", "inv2", "inv3": // k times the inverse of the width modulo 2^64 (odd widths): y*width = k mod 2^64
+		if width%2 == 0 || width <= 0 {
+			return minInt + 2
+		}
+		inv := uint64(width) // Newton iteration for the inverse modulo 2^64
+		for i := 0; i < 6; i++ {
+			inv *= 2 - uint64(width)*inv
+		}
+		k := uint64(kind[3] - '0')
+		return int(inv * k)
+	}
+	return 1<<63 - 1
 }
